@@ -163,9 +163,11 @@ class QFunction(QToken):
         args_str = string[arg_start + 1 : arg_end]
         while args_str:
             (arg_t, arg), args_str = _parse_token(args_str, namespace)
-            comma = args_str.find(",")
-            if comma != -1:
-                args_str = args_str[comma + 1 :]
+            # Only skip the separator that directly follows this argument
+            # (bracketed tokens have already consumed it), never a later one
+            args_str = args_str.lstrip()
+            if args_str.startswith(","):
+                args_str = args_str[1:]
             args.append(arg_t.parse(arg, namespace))
         return QFunction(name, args)
 
